@@ -99,6 +99,10 @@ class Spec:
             if self.hilbert:
                 fh.seek(2 * offset)
                 raw = fh.read(2 * n)
+                # the quarter-rate mixing ramp is counted from the start of the FILE: raw sample 2*offset + k carries
+                # (-i)^(2*offset + k), i.e. the block read at an odd offset is minus the conversion of the block taken alone
+                # (only then does one absolute sample have one value, whatever read it comes from)
+                return self.transform(raw) * (-1) ** (offset % 2)
             else:
                 fh.seek(offset)
                 raw = fh.read(n)
